@@ -556,3 +556,215 @@ package bchutil
 //@   loop 1 invariant len(b) == len(s) && fresh(b)
 //@   loop 1 invariant forall k :: 0 <= k && k < $i ==> b[k] == (('A' <= s[k] && s[k] <= 'Z') ? s[k] + 32 : s[k])
 //@   loop 1 invariant forall k :: $i <= k && k < len(s) ==> b[k] == s[k]
+
+// ---- address accessors and thin constructors (C01 / C02)
+
+//@ func bchutil.(*AddressPubKeyHash).IsForNet
+//@   requires net != nil
+//@   ensures result == (a.prefix == net.CashAddressPrefix)
+//@   modifies nothing
+
+//@ func bchutil.NewAddressScriptHashFromHash
+//@   requires net != nil
+//@   ensures $calls_newAddressScriptHashFromHash == 1
+//@   ensures len(scriptHash) != 20 ==> result0 == nil && err != nil
+//@   ensures len(scriptHash) == 20 ==> err == nil && result0 != nil && fresh(result0) && sameobj(result0.prefix, net.CashAddressPrefix) && result0.prefix.off == net.CashAddressPrefix.off && len(result0.prefix) == len(net.CashAddressPrefix)
+//@   ensures len(scriptHash) == 20 ==> forall k :: 0 <= k && k < 20 ==> result0.hash[k] == scriptHash[k]
+//@   modifies nothing
+//@ func bchutil.NewAddressScriptHash32FromHash
+//@   requires net != nil
+//@   ensures $calls_newAddressScriptHash32FromHash == 1
+//@   ensures len(scriptHash) != 32 ==> result0 == nil && err != nil
+//@   ensures len(scriptHash) == 32 ==> err == nil && result0 != nil && fresh(result0) && sameobj(result0.prefix, net.CashAddressPrefix) && result0.prefix.off == net.CashAddressPrefix.off && len(result0.prefix) == len(net.CashAddressPrefix)
+//@   ensures len(scriptHash) == 32 ==> forall k :: 0 <= k && k < 32 ==> result0.hash[k] == scriptHash[k]
+//@   modifies nothing
+//@ func bchutil.NewLegacyAddressPubKeyHash
+//@   requires net != nil
+//@   ensures $calls_newLegacyAddressPubKeyHash == 1
+//@   ensures len(pkHash) != 20 ==> result0 == nil && err != nil
+//@   ensures len(pkHash) == 20 ==> err == nil && result0 != nil && fresh(result0) && result0.netID == net.LegacyPubKeyHashAddrID
+//@   ensures len(pkHash) == 20 ==> forall k :: 0 <= k && k < 20 ==> result0.hash[k] == pkHash[k]
+//@   modifies nothing
+
+//@ func bchutil.NewLegacyAddressScriptHashFromHash
+//@   requires net != nil
+//@   ensures $calls_newLegacyAddressScriptHashFromHash == 1
+//@   ensures len(scriptHash) != 20 ==> result0 == nil && err != nil
+//@   ensures len(scriptHash) == 20 ==> err == nil && result0 != nil && fresh(result0) && result0.netID == net.LegacyScriptHashAddrID
+//@   ensures len(scriptHash) == 20 ==> forall k :: 0 <= k && k < 20 ==> result0.hash[k] == scriptHash[k]
+//@   modifies nothing
+
+//@ func bchutil.NewAddressScriptHash
+//@   requires net != nil
+//@   ensures $calls_Hash160 == 1 && $calls_newAddressScriptHashFromHash == 1 && result0 == $ret0_newAddressScriptHashFromHash#1 && err == $ret1_newAddressScriptHashFromHash#1
+//@   ensures err == nil && result0 != nil && fresh(result0) && sameobj(result0.prefix, net.CashAddressPrefix) && result0.prefix.off == net.CashAddressPrefix.off && len(result0.prefix) == len(net.CashAddressPrefix)
+//@   modifies nothing
+//@   assert after Hash160#1: sameobj($arg0, serializedScript) && len($arg0) == len(serializedScript) && $arg0.off == serializedScript.off
+//@   assert after newAddressScriptHashFromHash#1: sameobj($arg0, $ret_Hash160#1) && len($arg0) == len($ret_Hash160#1) && $arg0.off == $ret_Hash160#1.off && $arg1 == net
+
+//@ func bchutil.NewAddressScriptHash32
+//@   requires net != nil
+//@   ensures $calls_Hash256 == 1 && $calls_newAddressScriptHash32FromHash == 1 && result0 == $ret0_newAddressScriptHash32FromHash#1 && err == $ret1_newAddressScriptHash32FromHash#1
+//@   ensures err == nil && result0 != nil && fresh(result0) && sameobj(result0.prefix, net.CashAddressPrefix) && result0.prefix.off == net.CashAddressPrefix.off && len(result0.prefix) == len(net.CashAddressPrefix)
+//@   modifies nothing
+//@   assert after Hash256#1: sameobj($arg0, serializedScript) && len($arg0) == len(serializedScript) && $arg0.off == serializedScript.off
+//@   assert after newAddressScriptHash32FromHash#1: sameobj($arg0, $ret_Hash256#1) && len($arg0) == len($ret_Hash256#1) && $arg0.off == $ret_Hash256#1.off && $arg1 == net
+
+//@ func bchutil.NewLegacyAddressScriptHash
+//@   requires net != nil
+//@   ensures $calls_Hash160 == 1 && $calls_newLegacyAddressScriptHashFromHash == 1 && result0 == $ret0_newLegacyAddressScriptHashFromHash#1 && err == $ret1_newLegacyAddressScriptHashFromHash#1
+//@   ensures err == nil && result0 != nil && fresh(result0) && result0.netID == net.LegacyScriptHashAddrID
+//@   modifies nothing
+//@   assert after Hash160#1: sameobj($arg0, serializedScript) && len($arg0) == len(serializedScript) && $arg0.off == serializedScript.off
+//@   assert after newLegacyAddressScriptHashFromHash#1: sameobj($arg0, $ret_Hash160#1) && len($arg0) == len($ret_Hash160#1) && $arg0.off == $ret_Hash160#1.off && $arg1 == net.LegacyScriptHashAddrID
+
+//@ func bchutil.(*AddressPubKeyHash).ScriptAddress
+//@   ensures len(result) == 20 && forall k :: 0 <= k && k < 20 ==> result[k] == a.hash[k]
+//@   modifies nothing
+
+//@ func bchutil.(*AddressPubKeyHash).Hash160
+//@   ensures result != nil && forall k :: 0 <= k && k < 20 ==> result[k] == a.hash[k]
+//@   modifies nothing
+
+//@ func bchutil.(*AddressPubKeyHash).String
+//@   ensures $calls_EncodeAddress == 1 && sameobj(result, $ret_EncodeAddress#1) && len(result) == len($ret_EncodeAddress#1) && result.off == $ret_EncodeAddress#1.off
+//@   modifies nothing
+//@   assert after EncodeAddress#1: $arg0 == a
+//@ func bchutil.(*AddressScriptHash).ScriptAddress
+//@   ensures len(result) == 20 && forall k :: 0 <= k && k < 20 ==> result[k] == a.hash[k]
+//@   modifies nothing
+
+//@ func bchutil.(*AddressScriptHash).Hash160
+//@   ensures result != nil && forall k :: 0 <= k && k < 20 ==> result[k] == a.hash[k]
+//@   modifies nothing
+
+//@ func bchutil.(*AddressScriptHash).String
+//@   ensures $calls_EncodeAddress == 1 && sameobj(result, $ret_EncodeAddress#1) && len(result) == len($ret_EncodeAddress#1) && result.off == $ret_EncodeAddress#1.off
+//@   modifies nothing
+//@   assert after EncodeAddress#1: $arg0 == a
+//@ func bchutil.(*AddressScriptHash).IsForNet
+//@   requires net != nil
+//@   ensures result == (a.prefix == net.CashAddressPrefix)
+//@   modifies nothing
+//@ func bchutil.(*AddressScriptHash32).ScriptAddress
+//@   ensures len(result) == 32 && forall k :: 0 <= k && k < 32 ==> result[k] == a.hash[k]
+//@   modifies nothing
+
+//@ func bchutil.(*AddressScriptHash32).Hash256
+//@   ensures result != nil && forall k :: 0 <= k && k < 32 ==> result[k] == a.hash[k]
+//@   modifies nothing
+
+//@ func bchutil.(*AddressScriptHash32).String
+//@   ensures $calls_EncodeAddress == 1 && sameobj(result, $ret_EncodeAddress#1) && len(result) == len($ret_EncodeAddress#1) && result.off == $ret_EncodeAddress#1.off
+//@   modifies nothing
+//@   assert after EncodeAddress#1: $arg0 == a
+//@ func bchutil.(*AddressScriptHash32).IsForNet
+//@   requires net != nil
+//@   ensures result == (a.prefix == net.CashAddressPrefix)
+//@   modifies nothing
+//@ func bchutil.(*LegacyAddressPubKeyHash).ScriptAddress
+//@   ensures len(result) == 20 && forall k :: 0 <= k && k < 20 ==> result[k] == a.hash[k]
+//@   modifies nothing
+
+//@ func bchutil.(*LegacyAddressPubKeyHash).Hash160
+//@   ensures result != nil && forall k :: 0 <= k && k < 20 ==> result[k] == a.hash[k]
+//@   modifies nothing
+
+//@ func bchutil.(*LegacyAddressPubKeyHash).String
+//@   ensures $calls_EncodeAddress == 1 && sameobj(result, $ret_EncodeAddress#1) && len(result) == len($ret_EncodeAddress#1) && result.off == $ret_EncodeAddress#1.off
+//@   modifies nothing
+//@   assert after EncodeAddress#1: $arg0 == a
+//@ func bchutil.(*LegacyAddressPubKeyHash).IsForNet
+//@   requires net != nil
+//@   ensures result == (a.netID == net.LegacyPubKeyHashAddrID)
+//@   modifies nothing
+//@ func bchutil.(*LegacyAddressScriptHash).ScriptAddress
+//@   ensures len(result) == 20 && forall k :: 0 <= k && k < 20 ==> result[k] == a.hash[k]
+//@   modifies nothing
+
+//@ func bchutil.(*LegacyAddressScriptHash).Hash160
+//@   ensures result != nil && forall k :: 0 <= k && k < 20 ==> result[k] == a.hash[k]
+//@   modifies nothing
+
+//@ func bchutil.(*LegacyAddressScriptHash).String
+//@   ensures $calls_EncodeAddress == 1 && sameobj(result, $ret_EncodeAddress#1) && len(result) == len($ret_EncodeAddress#1) && result.off == $ret_EncodeAddress#1.off
+//@   modifies nothing
+//@   assert after EncodeAddress#1: $arg0 == a
+//@ func bchutil.(*LegacyAddressScriptHash).IsForNet
+//@   requires net != nil
+//@   ensures result == (a.netID == net.LegacyScriptHashAddrID)
+//@   modifies nothing
+//@ func bchutil.(*AddressPubKey).IsForNet
+//@   requires net != nil
+//@   ensures result == (a.pubKeyHashID == net.LegacyPubKeyHashAddrID)
+//@   modifies nothing
+
+//@ func bchutil.(*AddressPubKey).ScriptAddress
+//@   requires a.pubKey != nil
+//@   ensures $calls_serialize == 1 && sameobj(result, $ret_serialize#1) && len(result) == len($ret_serialize#1) && result.off == $ret_serialize#1.off
+//@   ensures a.pubKeyFormat == PKFCompressed ==> len(result) == 33
+//@   ensures a.pubKeyFormat != PKFCompressed ==> len(result) == 65
+//@   modifies nothing
+//@   assert after serialize#1: $arg0 == a
+
+//@ func bchutil.(*AddressPubKey).Format
+//@   ensures result == a.pubKeyFormat
+//@   modifies nothing
+
+//@ func bchutil.(*AddressPubKey).SetFormat
+//@   ensures a.pubKeyFormat == pkFormat
+//@   modifies a.pubKeyFormat
+
+//@ func bchutil.(*AddressPubKey).PubKey
+//@   ensures result == a.pubKey
+//@   modifies nothing
+
+//@ func bchutil.lowerCase
+//@   ensures result == c | 32
+//@   modifies nothing
+
+//@ func bchutil.cat
+//@   ensures len(result) == len(x) + len(y)
+//@   ensures forall k :: 0 <= k && k < len(x) ==> result[k] == x[k]
+//@   ensures forall k :: 0 <= k && k < len(y) ==> result[len(x) + k] == old(y[k])
+//@   modifies *x
+
+//@ func bchutil.paramsFromNetID
+//@   ensures result != nil
+//@   ensures result == (netID == chaincfg.TestNet3Params.LegacyPubKeyHashAddrID ? &chaincfg.TestNet3Params : (netID == chaincfg.RegressionNetParams.LegacyPubKeyHashAddrID ? &chaincfg.RegressionNetParams : (netID == chaincfg.SimNetParams.LegacyPubKeyHashAddrID ? &chaincfg.SimNetParams : (netID == chaincfg.TestNet3Params.LegacyScriptHashAddrID ? &chaincfg.TestNet3Params : (netID == chaincfg.RegressionNetParams.LegacyScriptHashAddrID ? &chaincfg.RegressionNetParams : (netID == chaincfg.SimNetParams.LegacyScriptHashAddrID ? &chaincfg.SimNetParams : &chaincfg.MainNetParams))))))
+//@   modifies nothing
+
+//@ func bchutil.(*AddressPubKey).AddressPubKeyHash
+//@   requires a.pubKey != nil
+//@   ensures $calls_paramsFromNetID == 1 && $calls_serialize == 1 && $calls_Hash160 == 1
+//@   ensures result != nil && fresh(result)
+//@   ensures sameobj(result.prefix, $ret_paramsFromNetID#1.CashAddressPrefix) && len(result.prefix) == len($ret_paramsFromNetID#1.CashAddressPrefix) && result.prefix.off == $ret_paramsFromNetID#1.CashAddressPrefix.off
+//@   ensures forall k :: 0 <= k && k < 20 ==> result.hash[k] == $ret_Hash160#1[k]
+//@   modifies nothing
+//@   assert after paramsFromNetID#1: $arg0 == a.pubKeyHashID
+//@   assert after serialize#1: $arg0 == a
+//@   assert after Hash160#1: sameobj($arg0, $ret_serialize#1) && len($arg0) == len($ret_serialize#1) && $arg0.off == $ret_serialize#1.off
+
+//@ func bchutil.ConvertSlpToCashAddress
+//@   requires params != nil
+//@   requires typeis(addr, "bchutil.*AddressPubKeyHash") ==> unbox(addr, "bchutil.*AddressPubKeyHash") != nil
+//@   requires typeis(addr, "bchutil.*AddressScriptHash") ==> unbox(addr, "bchutil.*AddressScriptHash") != nil
+//@   ensures $calls_NewAddressPubKeyHash + $calls_NewAddressScriptHashFromHash <= 1
+//@   ensures $calls_NewAddressPubKeyHash == 1 ==> err == nil
+//@   ensures $calls_NewAddressScriptHashFromHash == 1 ==> err == nil
+//@   ensures $calls_NewAddressPubKeyHash + $calls_NewAddressScriptHashFromHash == 0 ==> err != nil
+//@   modifies nothing
+//@   assert after NewAddressPubKeyHash#1: len($arg0) == 20 && $arg1 == params && (forall k :: 0 <= k && k < 20 ==> $arg0[k] == unbox(addr, "bchutil.*AddressPubKeyHash").hash[k]) && typeis(addr, "bchutil.*AddressPubKeyHash")
+//@   assert after NewAddressScriptHashFromHash#1: len($arg0) == 20 && $arg1 == params && (forall k :: 0 <= k && k < 20 ==> $arg0[k] == unbox(addr, "bchutil.*AddressScriptHash").hash[k]) && typeis(addr, "bchutil.*AddressScriptHash")
+
+//@ func bchutil.ConvertCashToSlpAddress
+//@   requires params != nil
+//@   requires typeis(addr, "bchutil.*AddressPubKeyHash") ==> unbox(addr, "bchutil.*AddressPubKeyHash") != nil
+//@   requires typeis(addr, "bchutil.*AddressScriptHash") ==> unbox(addr, "bchutil.*AddressScriptHash") != nil
+//@   ensures $calls_NewSlpAddressPubKeyHash + $calls_NewSlpAddressScriptHashFromHash <= 1
+//@   ensures $calls_NewSlpAddressPubKeyHash == 1 ==> err == nil
+//@   ensures $calls_NewSlpAddressScriptHashFromHash == 1 ==> err == nil
+//@   ensures $calls_NewSlpAddressPubKeyHash + $calls_NewSlpAddressScriptHashFromHash == 0 ==> err != nil
+//@   modifies nothing
+//@   assert after NewSlpAddressPubKeyHash#1: len($arg0) == 20 && $arg1 == params && (forall k :: 0 <= k && k < 20 ==> $arg0[k] == unbox(addr, "bchutil.*AddressPubKeyHash").hash[k]) && typeis(addr, "bchutil.*AddressPubKeyHash")
+//@   assert after NewSlpAddressScriptHashFromHash#1: len($arg0) == 20 && $arg1 == params && (forall k :: 0 <= k && k < 20 ==> $arg0[k] == unbox(addr, "bchutil.*AddressScriptHash").hash[k]) && typeis(addr, "bchutil.*AddressScriptHash")
